@@ -88,6 +88,9 @@ CASEMAP = (("\ufb00", "ff"), ("\ufb01", "fi"), ("\ufb02", "fl"), ("\ufb03", "ffi
            ("\u00df", "ss"), ("\u017f", "s"), ("\u0131", "i"), ("\u212a", "k"), ("\u0130", "i"))
 
 
+CASEMAP_TEXT = 48  # numbered text passwords tried before the byte passwords
+
+
 def casemap_mutations(h):
     out = []
     low = h.lower()
@@ -484,7 +487,9 @@ def eval_case(case):
 def casemap_seed(name, st, cx, n):
     H = HS.handler(name)
     Hc = H.using(**st) if st else H
-    pw = f"{PW}{n}"
+    # numbered text passwords first; then one byte value repeated (formats whose stored text is a reversible image
+    # of the password -- cisco_type7, the plaintext family -- reach 'FF' only through non-ASCII password bytes)
+    pw = f"{PW}{n}" if n < CASEMAP_TEXT else bytes([0x80 + (n - CASEMAP_TEXT)]) * 3
     with _pinned_rng():
         return H, pw, Hc.hash(pw, **cx)
 
@@ -509,13 +514,15 @@ def work_casemap(task):
     mode = "default" if __debug__ else "O"
     name, st, cx = task["hasher"], task["settings"], task["ctx"]
     covered = set()
-    for n in range(48):
+    for n in range(CASEMAP_TEXT + 128):
         if len(covered) == len(CASEMAP):
             break
         try:
             H, pw, seedhash = casemap_seed(name, st, cx, n)
         except Exception:  # noqa: BLE001
-            break
+            if n < CASEMAP_TEXT:
+                break
+            continue  # this byte value is not an admissible password of the format
         if not isinstance(seedhash, str):
             break
         for label, mutant in casemap_mutations(seedhash):
